@@ -32,7 +32,13 @@ func StubC09Open(name string) (*os.File, error) {
 	return nil, errors.New("open " + name + ": no such file or directory")
 }
 
+// c09Unreadable: files that open but cannot be read (a directory given where a file is expected).
+var c09Unreadable = map[*os.File]bool{}
+
 func StubC09FileRead(f *os.File, b []byte) (int, error) {
+	if c09Unreadable[f] {
+		return 0, errors.New("read list.txt: is a directory")
+	}
 	c, off := c09Content[f], c09Off[f]
 	if off >= len(c) {
 		return 0, io.EOF
